@@ -131,17 +131,27 @@ theorem payload_damage_needs_collision (E : Env) (check hs : Nat) (h : BlockHead
       Check of every Block and everything from the Index on are the same bytes);
     * no LZMA_CONCATENATED, no LZMA_IGNORE_CHECK, the Check is a supported one other than None;
     * `b'` is accepted and the decoder consumed all of it (`consumed = length`: what `xz -d` demands).
-    Then `b` is accepted with output `out`, and `b'` decodes to the same `out` — or two different byte strings have the same Check
-    value.  (The unchanged footer pins the Index, the Index bytes determine the Records (`indexEncode_injective`), the Records pin
-    every Block boundary, and each unchanged Check field relates the two outputs of its Block.) -/
+    Then `b` is accepted with output `out`, and `b'` decodes to the same `out` — or a Check collision TIED TO THE TWO FILES is
+    exhibited: for some Block number `i`, Block `i` of `b` has Compressed Data `cB` decoding to `oB`, Block `i` of `b'` has
+    Compressed Data `cB'` (same length) decoding to `oB'`, `oB ≠ oB'`, and the two outputs have the same Check value
+    (`BlockAt E fl hdr inp cap i c o`, Lemmas/XzDamage.lean: Block `i` of the declarative walk from `inp` has Compressed Data `c`,
+    `c` is what the payload decoder maps to `o`, and the Block's Check field equals `E.check id o`).  The disjunct is NOT the
+    closed statement "some two byte strings collide" (true of every fixed-size Check): its witnesses are the outputs of the same
+    Block of the two files.  (The unchanged footer pins the Index, the Index bytes determine the Records
+    (`indexEncode_injective`), the Records pin every Block boundary, and each unchanged Check field relates the two outputs of its
+    Block.) -/
 theorem payload_damage_needs_collision_whole (E : Env) (hloc : PayloadLocal E) (hbd : PayloadBounded E) (fl : Flags)
     (hnc : fl.concatenated = false) (hign : fl.ignoreCheck = false) (b b' : List UInt8) (cap : Nat)
     (hdr : StreamFlags) (out : List UInt8) (hdmg : FileDamage E fl b b' cap hdr out)
     (hck : hdr.check ≠ 0) (hsup : E.checkSupported hdr.check = true)
     (hr' : (xzDecode E fl b' cap).ret = .streamEnd) (hall' : (xzDecode E fl b' cap).consumed = b'.length) :
     ((xzDecode E fl b cap).ret = .streamEnd ∧ (xzDecode E fl b cap).out = out ∧ (xzDecode E fl b cap).consumed = b.length)
-    ∧ ((xzDecode E fl b' cap).out = out ∨ ∃ o o' : List UInt8, o ≠ o' ∧ E.check hdr.check o = E.check hdr.check o') :=
-  payload_damage_whole E hloc hbd fl hnc hign b b' cap hdr out hdmg hck hsup hr' hall'
+    ∧ ((xzDecode E fl b' cap).out = out
+        ∨ ∃ (i : Nat) (cB cB' oB oB' : List UInt8),
+            BlockAt E fl hdr (b.drop STREAM_HEADER_SIZE) cap i cB oB ∧
+            BlockAt E fl hdr (b'.drop STREAM_HEADER_SIZE) cap i cB' oB' ∧
+            cB.length = cB'.length ∧ oB ≠ oB' ∧ E.check hdr.check oB = E.check hdr.check oB') :=
+  payload_damage_tethered E hloc hbd fl hnc hign b b' cap hdr out hdmg hck hsup hr' hall'
 
 /-! ## Single-bit damage outside Compressed Data -/
 
@@ -365,7 +375,10 @@ theorem payload_damage_needs_collision_whole_std (fl : Flags) (hnc : fl.concaten
     ((xzDecode XzEnv.stdEnv fl b cap).ret = .streamEnd ∧ (xzDecode XzEnv.stdEnv fl b cap).out = out
         ∧ (xzDecode XzEnv.stdEnv fl b cap).consumed = b.length)
     ∧ ((xzDecode XzEnv.stdEnv fl b' cap).out = out
-        ∨ ∃ o o' : List UInt8, o ≠ o' ∧ XzEnv.stdEnv.check hdr.check o = XzEnv.stdEnv.check hdr.check o') :=
+        ∨ ∃ (i : Nat) (cB cB' oB oB' : List UInt8),
+            BlockAt XzEnv.stdEnv fl hdr (b.drop STREAM_HEADER_SIZE) cap i cB oB ∧
+            BlockAt XzEnv.stdEnv fl hdr (b'.drop STREAM_HEADER_SIZE) cap i cB' oB' ∧
+            cB.length = cB'.length ∧ oB ≠ oB' ∧ XzEnv.stdEnv.check hdr.check oB = XzEnv.stdEnv.check hdr.check oB') :=
   payload_damage_needs_collision_whole XzEnv.stdEnv payload_local_std payload_bounded_std fl hnc hign b b' cap hdr out hdmg hck hsup
     hr' hall'
 
@@ -653,8 +666,8 @@ example : FileDamage toyEnv {} toyXz toyXzDamaged UNLIMITED ⟨0, 1⟩ [0x61, 0x
       (PayloadDamage.done _ _ _)
   · exact indexAndFooter_streamEnd ⟨0, 1⟩ [⟨20, 3⟩] (toyXz.drop 32) _ rfl (by decide +kernel)
 
-/-- (the damaged toy file is rejected — its CRC32 no longer matches — so here the theorem's conclusion holds vacuously; with a
-    32-bit Check there ARE accepted damaged files, each of them a collision) -/
+/-- (this damaged toy file is rejected — its CRC32 no longer matches; an ACCEPTED damaged file, i.e. a genuine CRC32 collision,
+    is `collA`/`collB` at the end of this file) -/
 example : (xzDecode toyEnv {} toyXzDamaged).ret = .dataError := by decide +kernel
 
 /-! ### the concrete decoder model on tests/files/good-1-check-crc32.xz -/
@@ -672,7 +685,7 @@ example : [150, 370, 400].map (fun i => (xzDecode XzEnv.stdEnv {} (flipBit good1
 example : (List.range 68).all (fun n => (xzDecode XzEnv.stdEnv {} (good1.take n)).ret == .bufError) = true := by decide +kernel
 
 -- the toy payload decoder satisfies `PayloadBounded` (a hypothesis of `prefix_free`)
-example : PayloadBounded toyEnv := by
+theorem toyEnv_payload_bounded : PayloadBounded toyEnv := by
   intro fs x cap
   show (toyPayload fs x cap).consumed ≤ x.length
   unfold toyPayload
@@ -699,7 +712,7 @@ example : PayloadExtends toyEnv := by
       rw [List.take_append_of_le_length (by omega)]
 
 -- … and `PayloadLocal`, the other hypothesis of `prefix_free` and `block_tail_bitflip_rejected`
-example : PayloadLocal toyEnv := by
+theorem toyEnv_payload_local : PayloadLocal toyEnv := by
   intro fs x y cap h hb ht
   show toyPayload fs y cap = toyPayload fs x cap
   have h' : (toyPayload fs x cap).ret = .streamEnd := h
@@ -726,5 +739,58 @@ example : PayloadLocal toyEnv := by
           omega
         simp only []
         rw [if_neg (by omega), e2]
+
+/-! ### whole-file payload damage with an ACCEPTED damaged file: a genuine, file-tethered CRC32 collision
+
+  `[1,2,3,4,5]` and `[64,4,114,223,4]` have the same CRC32 (0x470B99F4).  `collA` is a toy file whose only Block has the
+  Compressed Data `05 01 02 03 04 05`; `collB` is `collA` with those six bytes overwritten by `05 40 04 72 DF 04`.  Both are
+  accepted, as whole files, with different outputs — so `payload_damage_needs_collision_whole` must produce (and does produce)
+  its second disjunct, with Block 0 of the two files as witnesses. -/
+
+def collA : List UInt8 :=
+  toyXz.take 24 ++ [5, 1, 2, 3, 4, 5] ++ [0, 0] ++ le32 (crc32 [1, 2, 3, 4, 5])
+    ++ ([0, 1, 0x16, 5] ++ le32 (crc32 [0, 1, 0x16, 5])) ++ toyXz.drop 40
+def collB : List UInt8 :=
+  toyXz.take 24 ++ [5, 64, 4, 114, 223, 4] ++ [0, 0] ++ le32 (crc32 [1, 2, 3, 4, 5])
+    ++ ([0, 1, 0x16, 5] ++ le32 (crc32 [0, 1, 0x16, 5])) ++ toyXz.drop 40
+
+example : xzDecode toyEnv {} collA = { ret := .streamEnd, out := [1, 2, 3, 4, 5], consumed := 56 } := by decide +kernel
+example : xzDecode toyEnv {} collB = { ret := .streamEnd, out := [64, 4, 114, 223, 4], consumed := 56 } := by decide +kernel
+
+theorem collAB_fileDamage : FileDamage toyEnv {} collA collB UNLIMITED ⟨0, 1⟩ [1, 2, 3, 4, 5] := by
+  refine ⟨24, [⟨22, 5⟩], indexAndFooter ⟨0, 1⟩ [⟨22, 5⟩] (collA.drop 36), by decide, by decide +kernel, by decide +kernel,
+    ?_, ?_, by decide +kernel⟩
+  · exact PayloadDamage.block (E := toyEnv) (fl := {}) (hdr := ⟨0, 1⟩) [] (collA.drop 12) (collB.drop 12) UNLIMITED
+      0x02 [0, 33, 1, 0, 0, 0, 0, 55, 39, 151, 214] { compressedSize := none, uncompressedSize := none, filters := [⟨0x21, [0]⟩] }
+      [5, 1, 2, 3, 4, 5] [1, 2, 3, 4, 5] [0, 0] [244, 153, 11, 71] (collA.drop 36) [] 0 [⟨22, 5⟩] [5, 64, 4, 114, 223, 4]
+      (collA.drop 36)
+      (by decide +kernel) (by decide) (by decide +kernel) ⟨1, by decide +kernel⟩
+      ⟨(by decide +kernel), (by intro x hx; cases hx), (by intro u hu; cases hu), (by decide), (by decide),
+        (by intro _ _ _; decide +kernel)⟩
+      ⟨(by decide), (by decide), (by decide), (by unfold HashLimits; decide +kernel)⟩ (by decide) (by decide +kernel)
+      (PayloadDamage.done _ _ _)
+  · exact indexAndFooter_streamEnd ⟨0, 1⟩ [⟨22, 5⟩] (collA.drop 36) _ rfl (by decide +kernel)
+
+/-- the theorem applied to the pair: the outputs differ, so it yields the tethered collision -/
+theorem collAB_collision :
+    ∃ (i : Nat) (cB cB' oB oB' : List UInt8),
+      BlockAt toyEnv {} ⟨0, 1⟩ (collA.drop STREAM_HEADER_SIZE) UNLIMITED i cB oB ∧
+      BlockAt toyEnv {} ⟨0, 1⟩ (collB.drop STREAM_HEADER_SIZE) UNLIMITED i cB' oB' ∧
+      cB.length = cB'.length ∧ oB ≠ oB' ∧ toyEnv.check 1 oB = toyEnv.check 1 oB' := by
+  have h := payload_damage_needs_collision_whole toyEnv toyEnv_payload_local toyEnv_payload_bounded {} rfl rfl collA collB
+    UNLIMITED ⟨0, 1⟩ [1, 2, 3, 4, 5] collAB_fileDamage (by decide) (by decide) (by decide +kernel) (by decide +kernel)
+  rcases h.2 with h2 | h2
+  · exact absurd h2 (by decide +kernel)
+  · exact h2
+
+/-- … and the witnesses can only be the two outputs of Block 0: every `BlockAt` of these one-Block files at index 0 with these
+    Compressed Data has these outputs (here checked directly) -/
+example : BlockAt toyEnv {} ⟨0, 1⟩ (collB.drop STREAM_HEADER_SIZE) UNLIMITED 0 [5, 64, 4, 114, 223, 4] [64, 4, 114, 223, 4] :=
+  BlockAt.here (collB.drop 12) UNLIMITED 0x02 [0, 33, 1, 0, 0, 0, 0, 55, 39, 151, 214]
+    { compressedSize := none, uncompressedSize := none, filters := [⟨0x21, [0]⟩] }
+    [5, 64, 4, 114, 223, 4] [64, 4, 114, 223, 4] [0, 0] [244, 153, 11, 71] (collB.drop 36)
+    (by decide +kernel) (by decide) (by decide +kernel)
+    ⟨(by decide +kernel), (by intro x hx; cases hx), (by intro u hu; cases hu), (by decide), (by decide),
+      (by intro _ _ _; decide +kernel)⟩
 
 end XzVerif.C05
